@@ -1,0 +1,24 @@
+//go:build verif
+
+// Contracts for the verification harness in /verif (comment-only; this file
+// contains no executable code and is compiled only with the verif tag).
+//
+// Syntax: DESIGN.md section 2.3 in /verif. Every clause carries the ids of
+// the properties it serves.
+
+package p9
+
+// ---- pure helpers, unfolded from their SSA at call sites --------------------
+//@ inline (FileMode).IsDir, (FileMode).IsRegular, (FileMode).IsNamedPipe, (FileMode).IsCharacterDevice, (FileMode).IsBlockDevice, (FileMode).IsSocket, (FileMode).IsSymlink
+//@ inline (FileMode).FileType, (FileMode).Permissions, (FileMode).QIDType, (FileMode).OSMode, ModeFromOS
+
+// ---- C20: mode / type mapping ----------------------------------------------
+//@ define validType(m FileMode) bool = m&FileModeMask == ModeRegular || m&FileModeMask == ModeDirectory || m&FileModeMask == ModeSymlink || m&FileModeMask == ModeSocket || m&FileModeMask == ModeNamedPipe || m&FileModeMask == ModeCharacterDevice || m&FileModeMask == ModeBlockDevice
+//@ define validOSType(om os.FileMode) bool = om&os.ModeType == 0 || om&os.ModeType == os.ModeDir || om&os.ModeType == os.ModeSymlink || om&os.ModeType == os.ModeSocket || om&os.ModeType == os.ModeNamedPipe || om&os.ModeType == os.ModeDevice || om&os.ModeType == os.ModeDevice|os.ModeCharDevice
+//
+//@ lemma modeRoundTrip
+//@   lemma[C20] @p9-os-p9 forall(m, FileMode, validType(m) ==> ModeFromOS(FileMode.OSMode(m)) & (FileModeMask|permissionsMask) == m & (FileModeMask|permissionsMask))
+//@   lemma[C20] @os-p9-os forall(om, os.FileMode, validOSType(om) ==> FileMode.OSMode(ModeFromOS(om)) & (os.ModeType|os.ModePerm|os.ModeSetuid|os.ModeSetgid|os.ModeSticky) == om & (os.ModeType|os.ModePerm|os.ModeSetuid|os.ModeSetgid|os.ModeSticky))
+//@   lemma[C20] @qidtype-dir forall(m, FileMode, validType(m) ==> (FileMode.QIDType(m) == TypeDir <==> m&FileModeMask == ModeDirectory))
+//@   lemma[C20] @qidtype-symlink forall(m, FileMode, validType(m) ==> (FileMode.QIDType(m) == TypeSymlink <==> m&FileModeMask == ModeSymlink))
+//@   lemma[C20] @qidtype-regular forall(m, FileMode, m&FileModeMask == ModeRegular ==> FileMode.QIDType(m) == TypeRegular)
